@@ -400,3 +400,7 @@ def run(ctx):
     r3(ctx)
     C08.r3(ctx)   # maturity test `time <= now`, move-once
     C08.r4(ctx)   # FIFO queue discipline
+    C08.r14(ctx)  # a release reschedules only what a hold parked: a travelling message keeps its sampled delivery time
+    from . import C03, C09
+    C03.r3(ctx, C03.Typestate(ctx.w, C03.CELLS))   # what is in flight is dropped only by a partition (a repair / release loses nothing)
+    C09.r6(ctx)   # a datagram that arrived is never overwritten in the receive slot (it would never be seen, whatever its latency)
